@@ -156,16 +156,36 @@ def eval_closed_form(expr, n, subs=None):
         raise KeyError(f"free symbols left: {sorted(str(s) for s in e.free_symbols)}")
     if e.is_Rational:
         return Fraction(int(e.p), int(e.q))
-    e2 = sympy.nsimplify(e) if False else e
-    try:
-        e2 = sympy.simplify(e) if len(str(e)) < 400 else e
-    except Exception:
-        e2 = e
-    if e2.is_Rational:
-        return Fraction(int(e2.p), int(e2.q))
-    if e2.has(sympy.zoo) or e2.has(sympy.nan) or e2.has(sympy.oo):
+    if e.has(sympy.zoo) or e.has(sympy.nan) or e.has(sympy.oo):
         raise ValueError("undefined value")
-    return sympy.N(e2, 60)
+    return robust_numeric(e)
+
+
+class NumericallyUnstable(CaseTimeout):
+    pass
+
+
+def robust_numeric(e):
+    """
+    Numeric value of a constant expression (radicals, CRootOf, complex conjugates), trustworthy to ~60 digits:
+    sympy's evalf is run at increasing working precision until two consecutive precisions agree
+    (unsimplified closed forms contain differences of 600-digit numbers, a fixed precision is not enough).
+    """
+    import sympy
+
+    prev = None
+    for digits in (150, 600, 2400, 9600):
+        v = e.evalf(digits)
+        if v.has(sympy.zoo) or v.has(sympy.nan) or v.has(sympy.oo):
+            raise ValueError("undefined value")
+        if not v.is_number or v.free_symbols:
+            raise NumericallyUnstable("not a number")
+        if prev is not None:
+            d = abs(complex(sympy.N(v - prev, 30)))
+            if d <= 1e-60 * max(1.0, abs(complex(sympy.N(v, 30)))):
+                return sympy.N(v, 70)
+        prev = v
+    raise NumericallyUnstable("evalf did not stabilise")
 
 
 def values_equal(polar_val, ref, tol_digits=40):
